@@ -2,7 +2,13 @@ use crate::runner::{Check, Ctx, Fail, Report};
 use serde_json::Value;
 
 pub mod c08;
+pub mod c09;
 pub mod c10;
+pub mod c11;
+pub mod c12;
+pub mod c13;
+pub mod c16;
+pub mod c19;
 
 pub struct Entry {
     pub id: &'static str,
@@ -12,7 +18,13 @@ pub struct Entry {
 
 pub const ENTRIES: &[Entry] = &[
     Entry { id: "C08", run: c08::run, replay: c08::replay },
+    Entry { id: "C09", run: c09::run, replay: c09::replay },
     Entry { id: "C10", run: c10::run, replay: c10::replay },
+    Entry { id: "C11", run: c11::run, replay: c11::replay },
+    Entry { id: "C12", run: c12::run, replay: c12::replay },
+    Entry { id: "C13", run: c13::run, replay: c13::replay },
+    Entry { id: "C16", run: c16::run, replay: c16::replay },
+    Entry { id: "C19", run: c19::run, replay: c19::replay },
 ];
 
 pub fn lookup(id: &str) -> Option<&'static Entry> {
